@@ -33,7 +33,8 @@ Ltac mset := cbn [alist_set pystr_eqb N.eqb Pos.eqb andb].
 Ltac mred :=
   repeat (unfold mbind, mret, a_getattr, a_getattr_def, a_getattr_dyn, a_setattr_dyn, m_and, m_or, m_not, m_boolval, m_or_val, m_and_val, a_is_none, a_is_false, a_try_reraise; cbn beta iota;
           cbn [a_unpair a_getattr a_getattr_def a_lookup a_str a_add a_setattr a_setattr_path a_field_set a_getattr_dyn
-               a_name_of a_append a_truthy a_is_none a_isinstance2 a_isinstance a_deepcopy a_try_reraise a_to_child a_is_field a_is_false a_cmp a_len a_call_class a_new_empty
+               a_name_of a_append a_truthy a_isinstance2 a_isinstance a_deepcopy a_try_reraise a_to_child a_is_field a_is_false a_cmp a_len a_call_class a_new_empty
+               a_iterate a_iterate2 a_finish_new alloc a_id a_memo_get existsb kind_isinstance orb plain_kind a_setitem a_subscript
                item_field fself iself iattrs astr aint abool anone
                alist_get alist_set pystr_eqb N.eqb Pos.eqb andb negb fst snd py_truthy
                fid_key name_key id_key body_key immutable_key s2p map list_ascii_of_string Ascii.N_of_ascii
@@ -181,6 +182,65 @@ Section FieldSet.
       + cbn [existsb orb]. destruct (exn_eqb e TypeError); reflexivity.
   Qed.
 End FieldSet.
+
+(* ------------------------------------------------------------------ Array.__set__ / Map.__set__: the whole intake *)
+
+Lemma run_plain_thunks' kids h :
+  run_thunks (map (fun (p : pystr * child) (h0 : heap) => Ok (h0, AV (snd p))) kids) h = Ok (h, map (fun p => AV (snd p)) kids).
+Proof. exact (run_plain_thunks kids h). Qed.
+
+(* the owner is a plain (mutable) Structure under construction *)
+Definition plain_owner (ia : list (pystr * aval)) : Prop :=
+  constructing ia /\ alist_get ia (s2p "_immutable") = None.
+
+(* _ListStruct(field, instance, <the rebuilt list>, name) for a field not declared immutable and a plain owner: the
+   new wrapper's body holds the items of the list *)
+Lemma list_init_plain E rec rest ia nmv ks h :
+  alist_get ia (s2p "_immutable") = None ->
+  Src_ListStruct_init E rec (AObj []) (AObj ((s2p "_immutable", abool false) :: rest)) (AObj ia) (ATmp KList ks) nmv h =
+  Ok (h, AObj ((body_key, ATmp KWList (unlabel ks)) ::
+               wattrs (AObj ((s2p "_immutable", abool false) :: rest)) (AObj ia) nmv)).
+Proof.
+  intro IM. norm IM.
+  unfold Src_ListStruct_init, Src_ImmutableMixin_get_defensive_copy_if_needed, Src_ImmutableMixin_is_immutable.
+  mred. rewrite IM. mred. unfold a_super_init. mred. rewrite run_plain_thunks'. mred. rewrite as_kids_plain. reflexivity.
+Qed.
+
+Section ArraySet.
+  Variables (E : aenv) (CK : checks) (recf : nat -> heap -> child -> res (heap * child)).
+  Variables (rec : heap -> child -> res (heap * child)) (sup0 : aval -> aval -> aval -> M aval).
+  Variables (nm : pystr) (u ad : aval) (ia : list (pystr * aval)).
+  Hypothesis CKP : checks_pass CK.
+  Hypothesis UO : uniq_off E.
+  Hypothesis PO : plain_owner ia.
+  Hypothesis NN : pystr_eqb nm (s2p "_instantiated") = false.
+
+  (* Array[item field #f].__set__(instance, <the caller's plain list l>), the field not declared immutable, a plain
+     owner, the validations passing: the instance ends up holding a NEW _ListStruct -- allocated at the end of the
+     heap, after everything the item field allocated -- whose items are what the item field's own __set__ stored
+     for each element, in order.  The caller's list l is neither stored nor written (the heap is only extended by
+     [recf] and by the one allocation). *)
+  Theorem src_array_set_typed f n0 l h o :
+    get h l = Some o -> o_kind o = KList ->
+    Src_Array_set E CK recf rec (Src_Field_set E CK recf rec sup0)
+                  (fself false false nm (item_field f n0) u ad) (AObj ia) (AV (CRef l)) h =
+    lift_kids (map_kidsR (recf f) h (unlabel (o_kids o)))
+      (fun h1 ks => Ok (h1 ++ [{| o_kind := KWList; o_kids := unlabel ks |}],
+                        AObj (alist_set ia nm (AV (CRef (List.length h1)))))).
+  Proof.
+    intros G K. destruct PO as [[T I] IM]. pose proof T as T'. norm T'.
+    assert (CP : forall n a h, a_check CK n a h = Ok (h, anone)) by (intros; unfold a_check; rewrite CKP; reflexivity).
+    unfold Src_Array_set. mred. rewrite T'. mred. repeat (rewrite CP; mred).
+    rewrite (src_extract_field_value E CK recf rec (Src_Field_set E CK recf rec sup0) false false nm f u ad l h o n0 G K).
+    destruct (map_kidsR (recf f) h (unlabel (o_kids o))) as [[h1 ks]|e]; [| reflexivity].
+    cbn [lift_kids]. mred.
+    unfold fself. rewrite (list_init_plain E rec _ ia _ ks _ IM). mred. unfold wattrs. mred.
+    fold (fself false false nm (item_field f n0) u ad).
+    rewrite (src_field_set_plain E CK recf rec sup0 nm (item_field f n0) u ad ia UO (conj T I) false false _ _
+               eq_refl (fun X => match Bool.diff_false_true X with end) NN).
+    reflexivity.
+  Qed.
+End ArraySet.
 
 (* ------------------------------------------------------------------ the whole intake of an Array, on a sample
    (kernel-evaluated regression of the composition Array.__set__ -> extract_field_value -> _ListStruct(...) ->
